@@ -379,6 +379,10 @@ def batch(tasks, sysname, n):
                 None, []
         st.transitions += 1
         st.evaluations += 1
+        if key is not None:
+            # observed outcome class: the converter that decides (most recent)
+            st.outcomes[f"{sysname}:most-recent="
+                        f"{key[0][-1] if key[0] else 'none'}"] += 1
         for sig, msg in viol:
             st.violation(sig, f"after {hist}: {msg}",
                          {'system': sysname, 'n': n, 'history': hist})
